@@ -33,6 +33,8 @@ import (
 	"path/filepath"
 	"reflect"
 	"sort"
+	"strconv"
+	"strings"
 
 	"golang.org/x/tools/go/ast/astutil"
 	"golang.org/x/tools/go/packages"
@@ -524,6 +526,8 @@ type inlTransformer struct {
 	srcOf       func(filename string) ([]byte, error)
 	stack       []string
 	err         error
+	// imports that bodies inlined from other files of the package need (path -> name, "" = default)
+	needImports map[string]string
 }
 
 func (pl *inlinePlan) parseFile(overlay map[string][]byte) func(fset *token.FileSet, filename string, src []byte) (*ast.File, error) {
@@ -567,6 +571,24 @@ func (tr *inlTransformer) file(f *ast.File, filename string) {
 	for _, d := range f.Decls {
 		if fd, ok := d.(*ast.FuncDecl); ok && fd.Body != nil {
 			tr.node(fd.Body, filename)
+		}
+	}
+	// bodies inlined from another file of the package bring their imports along (an import that was already
+	// there is left alone; one that turns out unused is referenced by a blank declaration below)
+	var paths []string
+	for p := range tr.needImports {
+		paths = append(paths, p)
+	}
+	sort.Strings(paths)
+	for _, p := range paths {
+		have := false
+		for _, im := range f.Imports {
+			if q, err := strconv.Unquote(im.Path.Value); err == nil && q == p {
+				have = true
+			}
+		}
+		if !have {
+			astutil.AddNamedImport(tr.fset, f, tr.needImports[p], p)
 		}
 	}
 	// unused imports may result from deleting helpers: keep them alive is not
@@ -742,6 +764,38 @@ func (tr *inlTransformer) calleeDecl(c *inlCallee) *ast.FuncDecl {
 	}
 	for _, d := range f.Decls {
 		if fd, ok := d.(*ast.FuncDecl); ok && tr.off(fd.Pos()) == c.declOff {
+			if tr.primaryName != c.file {
+				// the body may use packages that only the helper's own file imports
+				used := map[string]bool{}
+				ast.Inspect(fd, func(n ast.Node) bool {
+					if se, ok := n.(*ast.SelectorExpr); ok {
+						if id, ok := se.X.(*ast.Ident); ok {
+							used[id.Name] = true
+						}
+					}
+					return true
+				})
+				for _, im := range f.Imports {
+					path, err := strconv.Unquote(im.Path.Value)
+					if err != nil {
+						continue
+					}
+					name := ""
+					if im.Name != nil {
+						name = im.Name.Name
+					}
+					local := name
+					if local == "" {
+						local = path[strings.LastIndex(path, "/")+1:]
+					}
+					if used[local] || (name == "" && !strings.Contains(path, ".") && used[local]) {
+						if tr.needImports == nil {
+							tr.needImports = map[string]string{}
+						}
+						tr.needImports[path] = name
+					}
+				}
+			}
 			// go/types insists that every valid position lies in one of the
 			// files being checked: map the copy's positions into the primary
 			// instance of the file when it is the file under transformation,
